@@ -3,11 +3,23 @@ from harness import core, msggen
 FAULTS = ["eof", "read-error", "eof-in-message", "junk-then-eof", "handler-exception"]
 ENABLE = '<enableBLOB device="CAM">%s</enableBLOB>'
 GETP = '<getProperties version="1.7"/>'
+ECHO = '<newTextVector device="CAM" name="ECHO"><oneText name="t">x</oneText></newTextVector>'
 WRITE = '<newTextVector device="CAM" name="T"><oneText name="t">hello</oneText></newTextVector>'
 
 
 def rmsg(fc, fd, en=None, blob=False, dev=None):
     return [fc, fd, [] if en is None else [en], blob, [] if dev is None else [dev]]
+
+
+def is_fault(st):
+    return st[0] == "fault" or (st[0] == "burst" and any(x[0] == "fault" for x in st[1]))
+
+
+def echoes(st):
+    """plain device updates the device sends in answer during this step"""
+    if st[0] == "burst":
+        return sum(echoes(x) for x in st[1])
+    return 1 if (st[0] == "peer" and "ECHO" in st[2]) or (st[0] == "fault" and st[2] == "echo-raise") else 0
 
 
 def write_failed(c):
@@ -26,7 +38,7 @@ class C18(core.Prop):
     correspondence = ("real TCP and TTY connection handlers on fake streams inside a running loop, faults injected at every step of a session "
                       "script, vs the router model driven by the lifecycle translation (open = register, message = send, any ending = unregister)")
     rule = ("session scripts of 2-3 connections (handshake, enableBLOB Also/Only/Never, writes, device traffic incl. BLOB updates) x fault kind "
-            "{EOF, read error, EOF inside a message, junk then EOF, handler exception, write error on a peer, write error on the connection itself before it ends} injected at every step index x "
+            "{EOF, read error, EOF inside a message, junk then EOF, handler exception, write error on a peer, write error on the connection itself before it ends, the last request and the end of stream arriving together while the device answers the others, the device answering and then failing} injected at every step index x "
             "victim transport {TCP, TTY}, followed by device traffic and a reconnect; non-trivial = script with a fault; distinct by script")
     assumptions = ["one TTY connection per script at most (the TTY server has a single channel)",
                    "a write error on a peer does not by itself end that peer's connection; it ends when its reader does"]
@@ -35,7 +47,7 @@ class C18(core.Prop):
     def gen(self, rng, tier):
         cases = []
         for victim_kind in ("tcp", "tty"):
-            for fault in FAULTS + ["peer-write-error", "own-write-error"]:
+            for fault in FAULTS + ["peer-write-error", "own-write-error", "answer-then-eof", "answer-then-raise"]:
                 base = [["open", 1, victim_kind], ["open", 2, "tcp"], ["peer", 1, GETP], ["peer", 2, GETP],
                         ["peer", 1, ENABLE % rng.choice(["Also", "Only"])], ["peer", 2, ENABLE % "Also"], ["dev", False],
                         ["peer", 1, WRITE], ["dev", True], ["open", 3, "tcp"], ["peer", 3, ENABLE % "Only"], ["dev", True], ["dev", False]]
@@ -47,6 +59,12 @@ class C18(core.Prop):
                     elif fault == "own-write-error":
                         # a write to the connection fails first; it ends (by end of stream) afterwards
                         script += [["writefail", 1], ["dev", False], ["dev", False], ["dev", True], ["fault", 1, "eof"]]
+                    elif fault == "answer-then-eof":
+                        # the last request and the end of the stream arrive together: the device's answer to the others is under way
+                        # when the connection is closed
+                        script += [["burst", [["peer", 1, ECHO], ["fault", 1, "eof"]]]]
+                    elif fault == "answer-then-raise":
+                        script += [["fault", 1, "echo-raise"]]
                     else:
                         script += [["fault", 1, fault]]
                     script += base[pos:] + [["dev", False], ["dev", True], ["open", 4, "tcp"], ["dev", True], ["dev", False]]
@@ -55,33 +73,39 @@ class C18(core.Prop):
         return cases
 
     def model_ops(self, c):
-        ops = [["regdev", 100, []]]
+        """per script step the list of router operations it amounts to (the first entry registers the device)"""
         ended = set()
-        for st in c["script"]:
+
+        def one(st):
+            if st[0] == "burst":
+                return [o for x in st[1] for o in one(x)]
             if st[0] == "open":
-                ops.append(["regcl", st[1]])
-            elif st[0] == "peer":
+                return [["regcl", st[1]]]
+            if st[0] == "peer":
                 if st[1] in ended:
-                    ops.append(None)
-                    continue
+                    return []
                 t = st[2]
                 if "enableBLOB" in t:
-                    ops.append(["send", [st[1]], rmsg(True, False, t.split(">")[1].split("<")[0], False, "CAM")])
-                elif "getProperties" in t:
-                    ops.append(["send", [st[1]], rmsg(True, True)])
-                else:
-                    ops.append(["send", [st[1]], rmsg(True, False, None, False, "CAM")])
-            elif st[0] == "dev":
-                ops.append(["send", [100], rmsg(False, True, None, bool(st[1]), "CAM")])
-            elif st[0] == "fault":
-                ops.append(["unreg", st[1]])
+                    return [["send", [st[1]], rmsg(True, False, t.split(">")[1].split("<")[0], False, "CAM")]]
+                if "getProperties" in t:
+                    return [["send", [st[1]], rmsg(True, True)]]
+                ops = [["send", [st[1]], rmsg(True, False, None, False, "CAM")]]
+                if "ECHO" in t:
+                    ops.append(["send", [100], rmsg(False, True, None, False, "CAM")])
+                return ops
+            if st[0] == "dev":
+                return [["send", [100], rmsg(False, True, None, bool(st[1]), "CAM")]]
+            if st[0] == "fault":
+                ops = []
+                if st[2] == "echo-raise":
+                    ops = [["send", [st[1]], rmsg(True, False, None, False, "CAM")], ["send", [100], rmsg(False, True, None, False, "CAM")]]
                 ended.add(st[1])
-            else:
-                ops.append(None)
-        return ops
+                return ops + [["unreg", st[1]]]
+            return []
+        return [[["regdev", 100, []]]] + [one(st) for st in c["script"]]
 
     def model_input(self, c):
-        return [o for o in self.model_ops(c) if o is not None]
+        return [o for step in self.model_ops(c) for o in step]
 
     def compare(self, c, obs, mout):
         if obs["status"] != "ok":
@@ -94,7 +118,7 @@ class C18(core.Prop):
         prev = {}
         for i, (st, o) in enumerate(zip(c["script"], ops[1:])):
             step = obs["steps"][i]
-            if o is not None:
+            for _ in o:
                 k += 1
                 outs = mout[k]
                 for x in outs:
@@ -115,7 +139,7 @@ class C18(core.Prop):
     def oracle(self, c, obs):
         if obs["status"] != "ok":
             return "crashed: %s %s" % (obs["status"], obs.get("detail", ""))
-        fi = next(i for i, s in enumerate(c["script"]) if s[0] == "fault")
+        fi = next(i for i, s in enumerate(c["script"]) if is_fault(s))
         after = obs["steps"][fi]
         what = "%s on a %s connection at step %d" % (c["fault"], c["victim"], c["at"])
         if 1 in after["clients"]:
@@ -127,6 +151,13 @@ class C18(core.Prop):
         if not after["done"]["1"]:
             return "handler-running: after %s the connection's handler has not finished" % what
         base = after["received"]["1"]
+        # what the device sent in answer while the connection was ending reaches every other connection that takes plain traffic
+        if echoes(c["script"][fi]) and fi > 0:
+            before = obs["steps"][fi - 1]
+            for cid in {s[1] for s in c["script"][:fi] if s[0] == "open" and s[1] not in (1, 3)}:
+                if cid != write_failed(c) and after["received"][str(cid)] != before["received"][str(cid)] + echoes(c["script"][fi]):
+                    return "other-not-served: connection %d did not receive the update the device sent while the %s connection was ending (%s)" % (
+                        cid, c["victim"], c["fault"])
         open_ids = {2}
         rec_before = None
         # the others are served from the moment the connection's writes begin to fail, not only once it has ended
